@@ -351,6 +351,27 @@ var twin2Corpus = [][4]string{
 	{"+proj=tmerc +lat_0=0 +lon_0=9 +k=0.9996 +x_0=500000 +y_0=0 +a=6378137 +rf=298.257223563", "+proj=tmerc +lat_0=0 +lon_0=9 +k=0.9996 +x_0=500000 +y_0=0 +a=6378137 +rf=298.257223563 +zone=32", "10", "50"},
 }
 
+// histCorpus: texts whose AUTHORITY clauses carry codes that ARE registered names; parsing them must not
+// touch the registry
+func authWkt(code string, proj string, sph string) string {
+	return `PROJCS["x",GEOGCS["WGS 84",DATUM["WGS_1984",SPHEROID[` + sph + `,AUTHORITY["EPSG","7030"]],AUTHORITY["EPSG","6326"]],PRIMEM["Greenwich",0,AUTHORITY["EPSG","8901"]],UNIT["degree",0.0174532925199433,AUTHORITY["EPSG","9122"]],AUTHORITY["EPSG","4326"]],` + proj + `,UNIT["metre",1,AUTHORITY["EPSG","9001"]],AXIS["X",EAST],AXIS["Y",NORTH],AUTHORITY["EPSG","` + code + `"]]`
+}
+
+var histCorpus = func() []string {
+	merc := `PROJECTION["Mercator_1SP"],PARAMETER["central_meridian",0],PARAMETER["scale_factor",1],PARAMETER["false_easting",0],PARAMETER["false_northing",0]`
+	tm := `PROJECTION["Transverse_Mercator"],PARAMETER["latitude_of_origin",0],PARAMETER["central_meridian",9],PARAMETER["scale_factor",0.9996],PARAMETER["false_easting",500000],PARAMETER["false_northing",0]`
+	var out []string
+	for _, code := range []string{"3857", "3785", "900913", "102113", "4326", "4269"} {
+		out = append(out, authWkt(code, merc, `"WGS 84",6378137,298.257223563`))
+		out = append(out, authWkt(code, tm, `"Bessel 1841",6377397.155,299.1528128`))
+	}
+	for _, code := range []string{"4326", "4269"} {
+		out = append(out, `GEOGCS["mislabelled",DATUM["D_x",SPHEROID["Bessel 1841",6377397.155,299.1528128],TOWGS84[598.1,73.7,418.2,0.202,0.045,-2.455,6.7]],PRIMEM["Greenwich",0],UNIT["degree",0.0174532925199433],AUTHORITY["EPSG","`+code+`"]]`)
+	}
+	out = append(out, "+title=EPSG:3857 +proj=tmerc +lat_0=0 +lon_0=9 +k=0.9996 +x_0=500000 +y_0=0 +ellps=bessel", "+title=WGS84 +proj=longlat +ellps=bessel +towgs84=598.1,73.7,418.2")
+	return out
+}()
+
 func init() {
 	// every alias of the web Mercator definition against the ESRI text of the same CRS, off the equator
 	for _, n := range []string{"EPSG:3785", "GOOGLE", "EPSG:900913", "EPSG:102113"} {
@@ -479,5 +500,24 @@ func gen(seed uint64, tier string) {
 		if r.Chance(0.15) {
 			fmt.Fprintf(w, "eq %s %s\n", hx(s), hx(rawCorpus[r.Intn(len(rawCorpus))]))
 		}
+	}
+	// histories: parse texts carrying registered codes, then check the whole registry (one line each)
+	for _, h := range histCorpus {
+		fmt.Fprintf(w, "reghist %s\n", hx(h))
+	}
+	{
+		var all []string
+		for _, h := range histCorpus {
+			all = append(all, hx(h))
+		}
+		fmt.Fprintf(w, "reghist %s\n", strings.Join(all, " "))
+	}
+	// late check: the registry once more after everything else of this run has been parsed (cross-line, so
+	// reported as DIFF only: a single line cannot replay it)
+	for _, n := range regNames {
+		fmt.Fprintf(w, "lreg %s\n", n)
+	}
+	for i := 0; i < 8; i++ {
+		fmt.Fprintf(w, "lregalias %d\n", i)
 	}
 }
